@@ -315,6 +315,7 @@ def model_mismatch(r, proj):
     for (side, p), idx in sorted(r["R"].items()):
         if p == proj and idx is not None:
             if side == "rest" and r.get("Y"):
+                r["tie_ignored"] = True
                 continue
             out.append("%s-mismatch@%d" % (side, idx))
     return out
@@ -647,7 +648,10 @@ def run(ctx):
     stats = batches[-1]["stats"]
     tie.update({"histories_executed_on_real_handler_and_real_service": n_cases, "corpus": len(corpus), "generated": n,
                 "rest_grpc_event_pairs_compared": n_pairs, "histories_where_rest_and_grpc_differ": n_fail,
-                "model_mismatches_in_projection": n_mis, "histories_with_unjudged_timer_tie": n_tie, "crashes_or_hangs": len(crashes),
+                "model_mismatches_in_projection": n_mis, "histories_with_timer_tie": n_tie,
+                "model_mismatches_ignored_because_of_a_timer_tie": sum(1 for bb in batches for r in bb["results"].values() if r.get("tie_ignored")),
+                "histories_outside_the_premise_not_judged_further": sum(1 for bb in batches for c in bb["cases"].values() if "premise_broken_at" in c),
+                "crashes_or_hangs": len(crashes),
                 "projection": "C15 (flags, keys, errors, listing, file, lock table)", "generator_distribution": stats})
     cov["traces_validated_against_impl"] = 2 * n_cases
     cov["evaluations"] = n_pairs
